@@ -70,7 +70,8 @@ def design_level(thorough, res):
         def one(cfg):
             runs[cfg] = vlib.tlc("TimingMC", cfg, deadlock=False, timeout=3000, workers=6, heap="8g" if thorough else "4g")
         # the two large configurations of the thorough tier run next to the small ones
-        BIG = ("Timing_lazy2.cfg", "Timing_lazy22.cfg", "Timing_exh3i.cfg", "Timing_pace.cfg", "Timing_pace25.cfg")
+        BIG = ("Timing_lazy2.cfg", "Timing_lazy22.cfg", "Timing_exh3i.cfg", "Timing_pace.cfg", "Timing_pace25.cfg") + \
+              (() if thorough else ("Timing_lazy.cfg",))     # quick: the three small configurations run side by side
         big = [threading.Thread(target=one, args=(c,)) for c in cfgs if c in BIG]
         [t.start() for t in big]
         for cfg in cfgs:
@@ -211,9 +212,9 @@ CANARY = 1000000
 # Synthetic runs appended to every batch: TraceTiming MUST flag exactly these rules on them, otherwise the trace
 # specification has lost its teeth (machinery failure).  They never count as verdicts about the code.
 def canary_rows():
-    t = lambda run, k, tok, a, b, d, net=0, tag="", mw=0, pf=-1, dur=0, srv=0: {
+    t = lambda run, k, tok, a, b, d, net=0, tag="", mw=0, pf=-1, dur=0, srv=0, psleep=False: {
         "ev": "tok", "run": run, "k": k, "tok": tok, "a": a, "b": b, "d": d, "net": net, "tag": tag, "dur": dur,
-        "exp": "", "pa": 0, "pb": 0, "mw": mw, "pf": pf, "srv": srv, "gs": 0}
+        "exp": "", "pa": 0, "pb": 0, "mw": mw, "pf": pf, "srv": srv, "gs": 0, "psleep": psleep}
     c1, c2 = CANARY, CANARY + 1
     rows = [
         {"ev": "run", "run": c1, "kind": "canary", "key": "absent", "got": True, "ninst": 1, "desc": "canary on"},
@@ -230,14 +231,17 @@ def canary_rows():
         t(c2, 3, 100000, 3100000, 3600000, "fire", mw=1000000, pf=3100010, dur=1000000),           # next-shot-before-min-wait
         t(c2, 4, 100000, 3100000, 4700000, "fire", mw=1000000, pf=3600000, dur=999999),            # shot-shorter-than-min-wait
         t(c2, 5, 100000, 3100000, 5800000, "fire", mw=1000000, pf=4700000, dur=10500001, srv=2500000),  # paced-longer-than-needed
-        {"ev": "end", "run": c2, "end": 4000000, "left": 0, "drawn": 5, "err": "", "timeout": False, "last": 100000, "orphans": 0},
+        t(c2, 6, 100000, 3100000, 17000000, "fire", mw=1000000, pf=5800000, dur=2600000, srv=2500000, psleep=True),  # paced-although-served-longer
+        t(c2, 7, 100000, 3100000, 20000000, "fire", mw=1000000, pf=17000000, dur=1000000, srv=400000, psleep=True),  # fine: the wait was needed
+        {"ev": "end", "run": c2, "end": 4000000, "left": 0, "drawn": 7, "err": "", "timeout": False, "last": 100000, "orphans": 0},
         {"ev": "conf", "run": c2, "pool": 0, "key": "false", "got": True},
         {"ev": "conf", "run": c2, "pool": 1, "key": "null", "got": False, "chan": "stdin"},
     ]
     expect = {(c1, "fired-two-seconds-late"), (c1, "discarded-inside-window"), (c1, "discard-not-marked"),
               (c1, "fired-early"), (c1, "shot-and-discarded"), (c1, "token-lost"), (c1, "run-not-bounded"),
               (c2, "default-not-applied"), (c2, "discarded-while-off"), (c2, "not-all-fired-while-off"),
-              (c2, "next-shot-before-min-wait"), (c2, "shot-shorter-than-min-wait"), (c2, "paced-longer-than-needed")}
+              (c2, "next-shot-before-min-wait"), (c2, "shot-shorter-than-min-wait"), (c2, "paced-longer-than-needed"),
+              (c2, "paced-although-served-longer")}
     return rows, expect
 
 
@@ -291,7 +295,7 @@ def validate(v, trace_path, cases_by_id):
     if set(cgot) != cexpect or cgot[(CANARY, "discard-not-marked")] != 2 or cgot[(CANARY + 1, "default-not-applied")] != 3:
         raise vlib.MachineryError("TraceTiming canary: flagged %s, expected %s" % (sorted(cgot.items()), sorted(cexpect)))
     rep["runs"] -= 2
-    rep["toks"] -= 11
+    rep["toks"] -= 13
     rep["canary"] = sum(cgot.values())
     rows = rows[:-len(crow)]
     if machinery and not v.violations:
@@ -311,7 +315,7 @@ def run(tier, v):
         uth.start()
     try:
         d = vlib.scratch("c04-timing-")
-        n_scripts, n_gap, n_lazy, n_random, n_walks, n_confs = (140, 60, 100, 160, 3000, 72) if thorough else (20, 8, 10, 28, 800, 18)
+        n_scripts, n_gap, n_lazy, n_random, n_walks, n_confs = (140, 60, 100, 160, 3000, 72) if thorough else (20, 8, 10, 28, 800, 24)
         n_pace = 40 if thorough else 6
         n_burst = 60 if thorough else 8      # equal-time bursts (gap 0) with responses of about a second
         # script families (generated in parallel; ids are disjoint ranges):
